@@ -33,7 +33,7 @@ func listOpts(thorough, paired bool) []listOpt {
 	if thorough {
 		return []listOpt{{-1, 0}, {0, 0}, {1, 0}, {1, 1}, {2, 0}, {2, 1}, {2, 2}, {3, 0}, {3, 1}, {3, 2}, {3, 3}}
 	}
-	return []listOpt{{-1, 0}, {1, 0}, {1, 1}, {2, 1}, {2, 2}, {3, 0}}
+	return []listOpt{{-1, 0}, {1, 0}, {1, 1}, {2, 1}, {2, 2}, {3, 0}, {3, 1}}
 }
 
 // c15Slots: the independent dimensions of a kind (separator lists ride on their list).
@@ -332,10 +332,12 @@ func c15One(c *core.Ctx, cs c15Case, thorough bool) {
 			g = strings.TrimPrefix(g, "<?php ")
 		}
 		inList := -1
+		mustSep := false
 		lo := prevField
 		if prev != nil && cur != nil && prev.field == cur.field && fs[cur.field].Kind == astx.FNodes {
 			if !prev.isSep && !cur.isSep {
 				inList = cur.field // two items without separator token between them
+				mustSep = fs[cur.field].SepBy >= 0
 			}
 			lo, hi = 0, 0
 		} else if prev != nil && fs[prev.field].Kind == astx.FNodes && !prev.isSep {
@@ -343,6 +345,12 @@ func c15One(c *core.Ctx, cs c15Case, thorough bool) {
 			inList = prev.field
 		}
 		vs := absentBetween(lo, hi, inList)
+		if mustSep && len(vs) > 0 && vs[0] != nil && strings.TrimSpace(g) == "" {
+			// "separators interleaved with list items": between two items the separator is not optional
+			where := "before " + slotOf(cur.markers[0])
+			c.Report(fmt.Sprintf("print %s: no separator between two items of a separated list (%s)", cs.Kind, fs[cur.field].Name), ctx()+" "+where, cs)
+			return
+		}
 		if !matchGap(g, vs) {
 			where := "at the end"
 			if cur != nil {
